@@ -33,3 +33,17 @@ func TestRecord(t *testing.T) {
 	a := New(t, c)
 	graph.RunRecord(t, a, a.W.Ctx)
 }
+
+func TestReplayBulk(t *testing.T) {
+	var c Consts
+	graph.Const(&c)
+	a := New(t, c)
+	graph.RunReplay(t, &Bulk{a}, a.W.Ctx, nil)
+}
+
+func TestPathBulk(t *testing.T) {
+	var c Consts
+	graph.Const(&c)
+	a := New(t, c)
+	graph.RunPath(t, &Bulk{a}, a.W.Ctx)
+}
